@@ -32,7 +32,7 @@ type thread struct {
 	scriptParser OpcodeParser
 	scriptIdx    int
 	scriptOff    int
-	lastCodeSep  int
+	lastCodeSep  int // offset of the opcode after the last executed OP_CODESEPARATOR, 0 if none
 
 	tx         *bt.Tx
 	inputIdx   int
@@ -483,7 +483,6 @@ func (t *thread) Step() (bool, error) {
 		t.scriptIdx++
 	}
 
-	t.lastCodeSep = 0
 	if t.scriptIdx >= len(t.scripts) {
 		return true, nil
 	}
@@ -505,11 +504,7 @@ func (t *thread) SetStack(data [][]byte) {
 
 // subScript returns the script since the last OP_CODESEPARATOR.
 func (t *thread) subScript() ParsedScript {
-	skip := 0
-	if t.lastCodeSep > 0 {
-		skip = t.lastCodeSep + 1 // +1 to skip the opcode separator itself
-	}
-	return t.scripts[t.scriptIdx][skip:]
+	return t.scripts[t.scriptIdx][t.lastCodeSep:]
 }
 
 // checkHashTypeEncoding returns whether the passed hashtype adheres to
@@ -788,6 +783,7 @@ func (t *thread) shiftScript() {
 
 	t.numOps = 0
 	t.scriptOff = 0
+	t.lastCodeSep = 0
 	t.scriptIdx++
 	t.earlyReturnAfterGenesis = false
 }
